@@ -151,10 +151,32 @@ def list_expression_from_when_clause(
     return segments
 
 
+def list_scalar_subqueries(segment: BaseSegment) -> list[BaseSegment]:
+    """
+    parenthesis directly wrapping a query, at any depth below segment, but not the ones inside such a query
+    """
+    result = []
+    for seg in segment.segments:
+        if seg.type == "bracketed" and (
+            seg.get_child(
+                "select_statement", "set_expression", "with_compound_statement"
+            )
+            or any(
+                expression.get_child("select_statement")
+                for expression in seg.get_children("expression")
+            )
+        ):
+            result.append(seg)
+        else:
+            result += list_scalar_subqueries(seg)
+    return result
+
+
 def list_subqueries(segment: BaseSegment) -> list[SubQueryTuple]:
     subquery = []
     if segment.type == "select_clause":
         for select_clause_element in segment.get_children("select_clause_element"):
+            seen = len(subquery)
             if expression := select_clause_element.get_child("expression"):
                 if case_expression := expression.get_child("case_expression"):
                     for when_clause in case_expression.get_children("when_clause"):
@@ -174,20 +196,14 @@ def list_subqueries(segment: BaseSegment) -> list[SubQueryTuple]:
                                 else None
                             )
                             subquery.append(SubQueryTuple(bracketed_segment, alias))
-                    if else_clause := case_expression.get_child("else_clause"):
-                        for else_expression in else_clause.get_children("expression"):
-                            for bracketed in else_expression.get_children("bracketed"):
-                                if is_subquery(bracketed):
-                                    subquery.append(SubQueryTuple(bracketed, None))
-                else:
-                    # scalar subquery: SELECT (SELECT ...) AS col
-                    for bracketed in expression.get_children("bracketed"):
-                        if is_subquery(bracketed):
-                            subquery.append(SubQueryTuple(bracketed, None))
             elif function := select_clause_element.get_child("function"):
                 for bracketed in function.recursive_crawl("bracketed"):
                     if is_subquery(bracketed):
                         subquery.append(SubQueryTuple(bracketed, None))
+            # scalar subquery anywhere else in the select item: (SELECT ...) + 1, CAST((SELECT ...) AS INT), CASE ELSE
+            for bracketed in list_scalar_subqueries(select_clause_element):
+                if not any(bracketed is sq.parenthesis for sq in subquery[seen:]):
+                    subquery.append(SubQueryTuple(bracketed, None))
     elif segment.type == "from_expression_element":
         as_segment, target = extract_as_and_target_segment(unwrap_join_group(segment))
         if is_subquery(target):
